@@ -17,7 +17,8 @@ fragmented_control; control_len126 / control_len127 (extended length forms on pi
 without a long payload); cont_no_start; data_inside_fragmented; bad_utf8 (truncated, overlong, surrogate,
 > U+10FFFF, lone continuation byte; single frame, split exactly at a fragment boundary, compressed);
 unknown_opcode 3-7 and 0xB-0xF, final and non-final; too_big_single / too_big_fragments / too_big_inflated
-(limit+1 and far above; the deflate bomb stays below the limit on the wire); corrupt_deflate; close_bad_utf8.
+(limit+1 and far above; the deflate bomb stays below the limit on the wire) / too_big_wire_compressed (above the limit
+as carried, within it once inflated); len64_msb; corrupt_deflate; close_bad_utf8.
 
 A second part, `frames`, is differential: <=10 arbitrary *complete* frames (state-aware so that most are valid;
 every header field is occasionally odd: FIN, RSV bits, wrong/reserved opcodes, extended length forms, wrong
@@ -86,6 +87,15 @@ Second round:
   -- masking key and masked payload -- are themselves well-formed frames (key = the unmasked ping 89 02 6d 6b,
   then [final empty continuation if a message is open] [text "evil"] [close]), label
   `oversized_frame_embeds_valid_frames`; a third of too_big_single cases keep the plain filler.
+Fifth round:
+  M15 _receive_frame: the pre-read max_message_size test skipped for frames of a compressed message
+      (`and not self._frame_compressed`): a message that is ABOVE the limit as carried but inflates to at most the limit
+      is delivered                                                    -> C15.delivered_after_violation, seeds 1-3
+      In-statement ("a message above max_message_size before or after decompression").  New size-violation kind
+      too_big_wire_compressed: RFC 7692 payload padded with empty stored DEFLATE blocks (00 | 00 00 ff ff) to limit+1 ..
+      limit+9000 bytes on the wire while the plaintext is 0 / 10% / 100% of the limit; single frame or fragmented; in
+      `main` under every generated takeover combination and in `size_grid` (both roles x 4 takeover combinations x limits
+      {64,1000}: wire = limit+1 and 10*limit, plaintext 10% and 100% of the limit).
 Fourth round:
   M14 _receive_frame: the 64-bit extended length is masked with 0x7FFF...F, so a frame whose length has the most
       significant bit set (RFC 6455 5.2: MUST be 0) is read as a short frame and delivered
@@ -191,6 +201,13 @@ violation_s = st.one_of(
     st.tuples(st.just("too_big_fragments"), st.sampled_from([1, 2, 1000]), st.lists(st.integers(0, 1000), min_size=1, max_size=3), st.booleans()),
     st.tuples(st.just("too_big_inflated"), st.sampled_from([1, 2, 257, 258, 259, 1000, 1 << 20]), st.booleans(), st.lists(st.integers(0, 1000), max_size=2)),
     st.tuples(st.just("too_big_inflated"), st.sampled_from([1, 2, 257, 258, 259, 1000, 1 << 20]), st.booleans(), st.lists(st.integers(0, 1000), max_size=2)),
+    # a compressed message that is within the limit once inflated but ABOVE it as carried (padded with empty stored
+    # DEFLATE blocks): "a message above max_message_size before or after decompression" -- 2nd field: wire size =
+    # limit + this; 3rd: inflated size in percent of the limit
+    st.tuples(st.just("too_big_wire_compressed"), st.sampled_from([1, 2, 100, 9000]), st.sampled_from([0, 10, 100]), st.booleans(),
+              st.lists(st.integers(0, 1000), max_size=2)),
+    st.tuples(st.just("too_big_wire_compressed"), st.sampled_from([1, 2, 100, 9000]), st.sampled_from([0, 10, 100]), st.booleans(),
+              st.lists(st.integers(0, 1000), max_size=2)),
     st.tuples(st.just("corrupt_deflate"), st.sampled_from([b"\xff\xff\xff\xff\xff", b"\x07", b"\x00\x05\x00\xfa\x00", b"\x4a\x4c\x06\x00\x00\xff", b"\x00\x01\x00\x00\x00x"]),
               st.booleans(), st.booleans()),
     st.tuples(st.just("close_bad_utf8"), st.sampled_from([1000, 1001, 3000]), st.sampled_from(sorted(BAD_UTF8))),
@@ -204,9 +221,9 @@ violation_s = st.one_of(
     st.tuples(st.just("len64_msb"), st.sampled_from([0, 1, 3, 125, 126, 65536, 2 ** 62]), st.booleans(), st.booleans()),
     st.tuples(st.just("len64_msb"), st.sampled_from([0, 1, 3, 125, 126, 65536, 2 ** 62]), st.booleans(), st.booleans()),
 )
-NEEDS_DEFLATE = {"too_big_inflated", "corrupt_deflate", "either_rsv1_control"}
+NEEDS_DEFLATE = {"too_big_inflated", "too_big_wire_compressed", "corrupt_deflate", "either_rsv1_control"}
 NEEDS_NO_DEFLATE = {"rsv1_no_deflate"}
-NEEDS_LIMIT = {"too_big_single", "too_big_fragments", "too_big_inflated"}
+NEEDS_LIMIT = {"too_big_single", "too_big_fragments", "too_big_inflated", "too_big_wire_compressed"}
 
 case_s = st.fixed_dictionaries({
     "role": st.sampled_from(["server", "client"]),
@@ -435,6 +452,25 @@ def build_violation(enc, v, limit, deflate, inside, head=b"head!"):
         data += w
         info["size"] = True
         info["adjacent"] = True
+    elif kind == "too_big_wire_compressed":
+        _, extra, pct, binary, cuts = v
+        plain = b"z" * (limit * pct // 100)
+        comp = enc.deflater.compress_message(plain)
+        # RFC 7692 7.2.1 output = DEFLATE blocks ending in an empty stored block whose 00 00 ff ff is cut off; any number
+        # of further empty stored blocks (00 | 00 00 ff ff) may precede that: same plaintext, longer payload
+        nblocks = max(1, -(-(limit + extra - len(comp)) // 5))
+        body = comp + wsref.TAIL + (b"\x00" + wsref.TAIL) * (nblocks - 1) + b"\x00"
+        if inside:
+            data = f(wsref.OP_CONT, b"", fin=True)
+            info["completes_head"] = True
+        else:
+            data = b""
+        frags = wsref.split_at(body, sorted(len(body) * c // 1000 for c in cuts))
+        op = wsref.OP_BINARY if binary else wsref.OP_TEXT
+        data += b"".join(f(op if i == 0 else wsref.OP_CONT, fr, fin=(i == len(frags) - 1), rsv1=(i == 0)) for i, fr in enumerate(frags))
+        labels.add("wire_above_limit_inflated_%s" % ("at_limit" if pct == 100 else "below_limit"))
+        info["size"] = True
+        info["adjacent"] = True
     elif kind == "corrupt_deflate":
         _, garbage, binary, split = v
         op = wsref.OP_BINARY if binary else wsref.OP_TEXT
@@ -495,7 +531,7 @@ def normalise(case):
         c["deflate"] = False
     if kind in NEEDS_LIMIT and c["limit"] is None:
         c["limit"] = 300
-    if kind == "too_big_inflated" and c["limit"] < 16:
+    if kind in ("too_big_inflated", "too_big_wire_compressed") and c["limit"] < 16:
         c["limit"] = 16
     if kind in ("either_mask_rule", "either_nonminimal_len"):
         c["inside"] = False
@@ -897,10 +933,14 @@ def size_grid():
             for limit in (64, 1000):
                 for extra in (1, 9 * limit):
                     for binary in (False, True):
-                        yield {"role": role, "callback_mode": True, "deflate": True, "nct": nct, "limit": limit,
-                               "before": [valid(limit - 1, False, binary), valid(limit, True, binary)], "inside": False, "head": b"head!",
-                               "head_conts": 0, "violation": ("too_big_inflated", extra, binary, []), "after": [valid(5, False, binary)],
-                               "same_segment": extra == 1, "segs": [], "masks": [b"\x10\x20\x30\x40"]}
+                        base = {"role": role, "callback_mode": True, "deflate": True, "nct": nct, "limit": limit,
+                                "before": [valid(limit - 1, False, binary), valid(limit, True, binary)], "inside": False, "head": b"head!",
+                                "head_conts": 0, "after": [valid(5, False, binary)],
+                                "same_segment": extra == 1, "segs": [], "masks": [b"\x10\x20\x30\x40"]}
+                        yield dict(base, violation=("too_big_inflated", extra, binary, []))
+                        # within the limit once inflated (10% / 100% of it) but limit+1 resp. 10*limit bytes as carried
+                        yield dict(base, violation=("too_big_wire_compressed", extra, 10, binary, []))
+                        yield dict(base, violation=("too_big_wire_compressed", extra, 100, binary, [500] if binary else []))
 
 
 def length_grid():
